@@ -65,6 +65,11 @@ def wland (a b : Int) : Int := iland a b
 def wlor  (a b : Int) : Int := ilor a b
 def wlxor (a b : Int) : Int := ilxor a b
 
+/-- number of digits of `n` in base `b ≥ 2` (fuel-bounded; 1 for 0) -/
+def ndigits (b : Nat) : Nat → Nat → Nat
+  | 0, _ => 1
+  | fuel+1, n => if n < b ∨ b < 2 then 1 else ndigits b fuel (n / b) + 1
+
 /-- Result of a translated function: returned value, final values of `*this` (non-const
     methods) and of every non-const reference parameter in declaration order, and whether the
     call threw. -/
